@@ -669,13 +669,16 @@ func runC13(r *core.Run) (bool, string) {
 		"(d) concurrency in a child process (library panics recovered per call; a fatal error kills only the child): 1-4 creators x 1-4 readers (Open+ReadAt of the whole file, List every 4th iteration) on one file, and creator pairs on (same dir, different names), (different dirs, same name), (same dir, same name) started together each round, on DirFs and MemFs; " +
 		"payloads are a 4-byte version token repeated to a version-specific length: a reader/final check must see exactly one complete written version. " +
 		"Injected runs count only when validated from their own strace log (kill: BEGIN seen, END not seen, the syscall being entered is the planned k-th syscall of the call; fault: exactly one (INJECTED) line of the planned syscall inside the markers). " +
-		"distinct = landed (setup, kill|errno, syscall, occurrence) points + concurrency scenarios")
+		"(e) links and descriptors (links_* keys), on DirFs and MemFs against a reference model in which AtomicCreate installs a fresh file under the name: directed and seeded sequences of AtomicCreate / Create+Append / Link / Delete over four names in two directories; after EVERY step every existing name is read through a fresh descriptor: the target holds exactly data and every other name — in particular a hard link of the file just replaced — is unchanged; " +
+		"a reader that keeps one descriptor open across replacements and reads in several ReadAt calls (1…4096 bytes) must assemble one complete written version (whether it is the version at Open is recorded, not decided); the same with concurrency: creators replacing different names that are hard links of one file, and chunked readers holding descriptors while a creator replaces the file. " +
+		"distinct = landed (setup, kill|errno, syscall, occurrence) points + concurrency scenarios + links observation classes")
 	r.Assume("kill -9 at a syscall boundary stands for a crash; real power loss is not produced: durability is decided on the recorded syscall order only")
 	r.Assume("MemFs readers do not Close (MemFs descriptors are inode numbers shared between openers — subject of C12); a DirFs List that misses the destination is counted inconclusive because List is documented as non-atomic")
 	r.Assume("crash enumeration starts from trees without leftover staging files; leftovers are exercised by the recovery calls that follow every crash/fault point")
 	missing := c13CrashAndFaults(r)
 	c13PartialWrite(r)
 	c13Concurrency(r)
+	c13LinksAndDescriptors(r)
 	notLanded := r.GetCount("fault_points_not_landed")
 	r.Set("exhaustive", notLanded == 0 && r.GetCount("crash_points_landed") > 0)
 	r.Set("exhaustive_parts", []string{"crash point before every file-system syscall of the call, for each of the (size,destination) setups", "single failure (EIO, ENOSPC) of every open/write/fsync/rename syscall of the call, for each setup"})
@@ -691,6 +694,11 @@ func runC13(r *core.Run) (bool, string) {
 	for _, f := range []string{"dir", "mem"} {
 		if r.GetCount("conc_"+f+"fs_reader_observations_of_a_concurrently_written_version") < 50 || r.GetCount("conc_"+f+"fs_pair_rounds_with_overlapping_calls") < 20 {
 			return false, "readers/creators on " + f + "fs did not overlap enough to observe anything"
+		}
+	}
+	for _, f := range []string{"dir", "mem"} {
+		if r.NumViolations() == 0 && (r.GetCount("links_"+f+"fs_reads_of_a_name_linked_to_the_file_just_replaced") < 20 || r.GetCount("links_"+f+"fs_held_descriptor_reads_spanning_a_replacement") < 10) {
+			return false, "too few reads of hard-linked names / of descriptors held across a replacement on " + f + "fs"
 		}
 	}
 	return true, ""
